@@ -125,3 +125,25 @@ Theorem C07_front_end_never_panics : forall ts f up st main intern g,
   check_program intern g (uprogram_of_parsed up main) <> CErr E_Panic.
 Proof. exact front_end_never_panics. Qed.
 Print Assumptions C07_front_end_never_panics.
+
+(* ------------------------------------------------------------------ the SCANNER reads printed tokens
+   back (Front/ScanPrint.v): number lexing is exact - the decimal text of n with a suffix is read as
+   the one number token n iff n is within the bound of the suffix (unsuffixed / u64: 2^64 - 1; usize,
+   u32: 2^32 - 1; ...), a minus directly before digits gives ONE signed token - and every printable
+   token list separated by single spaces is scanned back to itself. *)
+From GV Require Import Front.ScanPrint.
+
+Theorem C07_scanner_number_lexing_exact : forall n t, n <= ubound t ->
+  exists m, scan_text (dec n ++ usuffix_text t) = Ok (STokens [Token (TUnsignedNum n t) m]).
+Proof. exact scan_unsigned. Qed.
+Print Assumptions C07_scanner_number_lexing_exact.
+
+Theorem C07_scanner_number_beyond_bound_is_an_error : forall n t, ubound t < n ->
+  exists es, scan_text (dec n ++ usuffix_text t) = Ok (SErrors es).
+Proof. exact scan_unsigned_beyond. Qed.
+Print Assumptions C07_scanner_number_beyond_bound_is_an_error.
+
+Theorem C07_scanner_reads_printed_tokens_back : forall ts, Forall tok_printable ts ->
+  exists ts', scan_text (print_tokens ts) = Ok (STokens ts') /\ map kind ts' = ts.
+Proof. exact scan_print. Qed.
+Print Assumptions C07_scanner_reads_printed_tokens_back.
